@@ -10,6 +10,11 @@ from detsim.core import call
 
 
 def _probe_vertices(n):
+    if n > 12:
+        # large graphs: boundary vertices and a spread of inner ones
+        inner = sorted(set([1, 2, 9, 10, 11, n - 1, n] +
+                           list(range(3, n, max(1, n // 6)))))
+        return [0, -1] + [v for v in inner if 1 <= v <= n] + [n + 1]
     return [0, -1] + list(range(1, n + 1)) + [n + 1]
 
 
